@@ -6,6 +6,7 @@ From Coq Require Import List ZArith Bool Arith.
 From TC.Model Require Import WQ.
 From TC.Run Require Import RunLib.
 From TC.Run Require Export CorrWQ.
+From TC.Run Require CorrC16.
 Import ListNotations.
 
 Definition rel_C04 (m o : obs) : bool :=
@@ -16,7 +17,14 @@ Definition rel_C04 (m o : obs) : bool :=
 Definition all_started (c : wcase) : list Z := flat_map (fun so => o_started (snd so)) (c_script c).
 Definition mon_once (c : wcase) : bool := znodup (all_started c).
 
+(* Scripts with Dequeue / SetPriority: the clauses of C16's black-box monitor (Run/CorrC16.v mon_C16, on the log alone)
+   are exactly what C04 needs there - an item dequeued with nil never starts, every other call changes nothing, and when
+   a script without errors/subscribers/Stop has run to completion every accepted item that was not dequeued has
+   started (none dropped), no item twice. *)
 Definition case := wcase.
 Definition verdict (c : case) : nat :=
-  if negb (mon_nohang c) then 1 (* a caller hangs *) else if mon_once c then classify rel_C04 c else 1.
+  if negb (mon_nohang c) then 1 (* a caller hangs *)
+  else if negb (mon_once c) then 1
+  else if negb (CorrC16.mon_C16 c) then 1 (* an accepted, never dequeued item did not run / a dequeued one ran *)
+  else classify rel_C04 c.
 Definition mismatches (cs : list case) : list (nat * nat) := collect verdict 0 cs.
